@@ -1,5 +1,6 @@
 import Driver.Proto
 import PolyVerif.Model.GraphIO
+import PolyVerif.Model.Payload
 
 /-!
   C12 driver: answers the `c12.*` request lines from `PolyVerif.Model.GraphIO`.
@@ -279,8 +280,47 @@ def allDistinct : List Name → Bool
   | [] => true
   | a :: r => !r.contains a && allDistinct r
 
+/-- the driver's float codec: a number stays the text strconv printed (float formatting is the trusted law) -/
+def numChar (c : Char) : Bool := isDigit c || c = '-' || c = '+' || c = '.' || c = 'e' || c = 'E'
+def numC : PolyVerif.Payload.Codec (List Char) :=
+  { print := id,
+    parse := fun s => match s.takeWhile numChar with
+      | [] => none
+      | d :: ds => some (d :: ds, s.dropWhile numChar) }
+
+open PolyVerif.Payload in
+/-- parse a Go-marshalled payload text with the model's codec of that type and print it again -/
+def reprint (kind : String) (t : List Char) : Option (List Char) :=
+  let via {α : Type} (c : Codec α) : Option (List Char) := (whole (c.parse t)).map c.print
+  match kind with
+  | "f64" => via numC
+  | "int" => via intC
+  | "str" => via strC
+  | "color" => via strC
+  | "bool" => via boolC
+  | "v2" => via (v2C numC)
+  | "v3" => via (v3C numC)
+  | "v3arr" => via (sliceC (v3C numC))
+  | "aabb" => via (aabbC numC)
+  | "arrint" => via (arrC intC)
+  | "arrstr" => via (arrC strC)
+  | "arrbool" => via (arrC boolC)
+  | _ => none
+
 def handle (op : String) (args : List String) : Option String :=
   match op with
+  | "c12.json" =>
+    match args with
+    | [kind, t] => do
+      let s ← unS t
+      match reprint kind s.toList with
+      | some out => pure (hs (String.ofList out))
+      | none => pure "err"
+    | _ => none
+  | "c12.holds.image_payload_kept" =>
+    match args with
+    | [st, before, after, s1, s2, md] => some (boolStr (st == hs "ok" && before == after && s1 == s2 && md == "true"))
+    | _ => some "false"
   | "c12.less" => do
     let ((a, b), _) ← (do let a ← pName; let b ← pName; pure (a, b) : P _).run args
     pure (boolStr (depLess a b))
